@@ -23,9 +23,9 @@ import vlib
 from vlib import proof_coverage
 
 LEVEL = "proof"
-N_QUICK = {"mixed": 36, "straight": 24}
+N_QUICK = {"mixed": 30, "straight": 20}
 N_THOROUGH = {"mixed": 420, "straight": 240}
-TRACE_QUICK, TRACE_THOROUGH = 60, 400
+TRACE_QUICK, TRACE_THOROUGH = 40, 400
 MAX_REPORTS = 3
 C03 = vlib.VERIF / "props" / "C03"
 
@@ -140,11 +140,11 @@ COQ_HDR = ("From Coq Require Import List Bool Arith NArith String.\nFrom V.C05 R
            "Import ListNotations.\n"
            "(* results are printed as binary numbers: printing unary nat literals is slow *)\n"
            "Definition en (l : list (nat*nat)) := map (fun ab => (N.of_nat (fst ab), N.of_nat (snd ab))) l.\n"
-           "Definition rT := (bool * (list (N*N) * list (N * (list (N*N) * list (N*N))) * (bool * bool * bool)))%type.\n"
+           "Definition rT := (bool * (list (N*N) * list (N * (list (N*N) * list (N*N))) * (bool * bool * bool * bool * bool)))%type.\n"
            "Definition enc (r : option report) : rT := match r with\n"
-           " | None => (false, (@nil (N*N), @nil (N * (list (N*N) * list (N*N))), (false, false, false)))\n"
+           " | None => (false, (@nil (N*N), @nil (N * (list (N*N) * list (N*N))), (false, false, false, false, false)))\n"
            " | Some x => (true, (en (rp_edges x), map (fun r => (N.of_nat (fst r), (en (fst (snd r)), en (snd (snd r))))) (rp_regions x),\n"
-           "                     (rp_wf x, rp_disc x, rp_local x))) end.\n")
+           "                     (rp_wf x, rp_disc x, rp_local x, rp_plain x, rp_concl x))) end.\n")
 
 
 def run_model(ctx, seg_list, tag, per=12):
@@ -356,7 +356,7 @@ def run(ctx):
     chain_lengths = Counter()
     samples = []
     for (p, rec, segs), res in zip(work, results):
-        ok, (m_edges, regions, (wf, disc, local)) = res
+        ok, (m_edges, regions, (wf, disc, local, plain, concl)) = res
         real = sorted(tuple(e) for e in rec["final"]["order"])
         nodes = {int(k): v for k, v in rec["final"]["nodes"].items()}
         key = p["src"]
@@ -394,6 +394,14 @@ def run(ctx):
             stat["HYPOTHESIS-FAILS"] += 1
             report("hyp", "hypothesis:" + key, "correspondence", "a hypothesis of order_edges_total does not hold on a real insertion log",
                    {"program": key, "wf": wf, "disciplined": disc, "context_local": local, "replay": REPLAY_HUGR}, False)
+        if not plain:
+            stat["EFFECT-OUTSIDE-CONTEXT"] += 1
+            report("plain", "untracked:" + key, "counterexample", "a classified operation was added while Hugr.add_node was not patched (no order edges)",
+                   {"program": key, "replay": REPLAY_HUGR})
+        if not concl:
+            stat["THEOREM-INSTANCE-FAILS"] += 1
+            report("concl", "theorem-instance:" + key, "proof-broken", "order_edges_total evaluated on the model run of a real log is false",
+                   {"program": key}, False)
         # source order for straight-line programs
         if p["profile"] == "straight":
             try:
